@@ -26,6 +26,11 @@ CLAIMS = {
         note=TRUST + 'that the manager constructors used in the rules preserve languages is C01; textbook rule = specification (a different but equivalent derivative rule would be reported as table-mismatch)',
         tech='match-arm term-tree summaries compared with the Brzozowski table; consult-set/class-set inclusion; call-log dataflow for the cache',
         ref='5.C03'),
+    'C04': dict(
+        text='static, necessary conditions only: the correctness and minimality of the Hopcroft refinement loop depend on array contents over all transition tables and are NOT decided. Decided: remap taint (every old state index reaches the new automaton through new_id exactly once; final count recomputed from kept states); from_partition (new_id[s]=block_id(s)-1 over all states, old_id[b-1]=pick_element(b) over all blocks); Hopcroft activation safety table of upate_splitters_after_refinement (refines pred_classes[s.char] at s.class with the predicate "successor lands in block i", new splitters (i,class1)/(j,class2) added iff non-empty, active old splitter gives two active, otherwise at least one); ordering in refine_with_splitter (own block withdrawn first, refined last, exactly once); partition bookkeeping (result table, exact counting, relabelling of exactly the new block, split at start+n); minimize plumbing (finality and delta closures, remap only on a real merge, initial splitters, refine loop).',
+        note=TRUST + 'block ids >= 1, u32/usize casts lossless, positions <= isize::MAX; the refinement loop as a whole is outside static reach (DESIGN 7)',
+        tech='call-log dataflow rules and table comparison over abstractly interpreted MIR (callees uninterpreted), taint rule for the remapping',
+        ref='5.C04'),
     'C05': dict(
         text='static (call-log rules): is_empty_re is exactly "no nullable term among iter_derivatives(e)"; get_string_path tests nullability of the popped term before expanding it, returns the path of that same term, and pushes (popped, cid, class_derivative_unchecked(popped, cid)) for the class ids of the popped term; get_string maps each path element to the representative of its own (term, class) and converts through the sanitising constructor; LabeledQueue first-visit rule, root edge, front pop, predecessor walk and single reversal. Exactness then follows from C01/C03/C19.',
         note=TRUST + 'pick_in_class and class id iteration are decided under C11; derivative exactness under C03',
@@ -36,6 +41,11 @@ CLAIMS = {
         note=TRUST + 'assumes the SmtString invariant (length <= i32::MAX, elements <= MAX_CHAR) for arguments; ghost-predicate axioms are the definitional unfoldings stated in smtlint/rules/c06.py',
         tech='abstract interpretation of MIR with inferred inductive loop invariants (conjunctions of difference constraints and ghost predicates), per-leaf entailment against the SMT-LIB spec',
         ref='5.C06'),
+    'C07': dict(
+        text='static invariants of the code that do not mention the manager contents, hence hold after every history: RE aggregates only in HashConsed::make, called only by Store::make, which allocates (one leak, id = counter, counter+1, stored under its own key) only on a vacant entry and returns the stored reference otherwise; Store<RE>::make called only by ReManager::new/make; RE eq/cmp/hash read only the id and BaseRegLan uses derived structural Eq/Hash; complement = id2re[id xor 1]; ReManager::make registers a new term and then its complement (consecutive ids), answers Complement keys from the pairing, nothing on a known term; new builds the constants in complementary pairs; simplify_set_operation sorts and dedups before any element read and both set constructors pass through it before building a key. Thorough tier: compile_fail witnesses with compiling twins (RegLan not Send, private id/expr/store, no forgery of SmtString/CharSet).',
+        note=TRUST + 'HashMap/Entry semantics (std); history-independence of languages follows because the C01 rules are history-free',
+        tech='who-constructs/who-calls queries over resolved MIR, call-log rules, dominance (must-precede) rule, compile_fail doctest witnesses',
+        ref='5.C07'),
     'C08': dict(
         text='static: (R3) typestate fixpoint of the literal parser: the abstract post of accept(x) for an arbitrary char is iterated over partitions (state, buffered count) with an interval for the escape code from new_automaton() to a fixpoint; at every site it checks no panic, the exact set of escape forms accepted (\\u + 4 hex; \\u{ + 1..5 hex + } with value <= 0x2FFFF), value accumulation 16c+digit, that each character is consumed exactly once and that malformed attempts are flushed verbatim before the current character; (R1/R2) decision table of the three printers over the code point, with format_args! templates decoded from MIR: printable ASCII only, quote doubled, raw output never for characters special to the parser, and every escape form among those the parser analysis found accepted, with the right digit count.',
         note=TRUST + 'core::fmt template encoding as documented in the toolchain (decoder self-test on every run); hex formatting trusted (std)',
@@ -66,6 +76,11 @@ CLAIMS = {
         note=TRUST + 'try_from_iter (disjointness) is the partition constructor decided under C11',
         tech='effect summary over the call graph + abstract interpretation with callees uninterpreted (must-precede as path facts at the call site), ghost-predicate loop invariant for the majority vote',
         ref='5.C13'),
+    'C14': dict(
+        text='static: remap taint (id, every successor element in place, default, initial state through new_id; state old_id[i] kept as new state i; final count from kept flags); remove_unreachable_states BFS shape (seed, every popped id recorded, edge targets of the popped state pushed, sorted, from_array inverse on kept nodes); EdgeIterator::next and FinalStateIterator::next decided per leaf against class_next semantics; compile_successors pairs (i, next(s, alphabet[i]).id) for the same i, filters exactly chars mapping to the default, sets the default iff present; combined_char_partition/pick_alphabet plumbing; CompactTable encoding agreement (slot base[i]+c in store/conflict/eval, owner tag, free-slot sentinel num_states in new/resize/conflict test, default fallback). Not decided: that first-fit placement never overwrites a used slot; exact reachability as a set.',
+        note=TRUST + 'usize->u32 casts of ids lossless; merge/picks semantics from C12/C11',
+        tech='abstract interpretation of MIR (per-leaf tables) + call-log dataflow rules + taint rule',
+        ref='5.C14'),
     'C15': dict(
         text='static: every LoopRange method is abstractly interpreted on all paths in both build configurations (ranges split into finite/infinite cases); each leaf must entail the set-level spec of the returned range (start, finiteness, end as normalised polynomials), panics are allowed exactly in the documented overflow region, nothing may wrap; right_mul_is_exact must equal the interval criterion whose correctness is argued on paper in the rule header.',
         note=TRUST + 'assumes start<=end for finite ranges; product monotonicity is the only non-linear lemma used by the decision procedure',
